@@ -3381,16 +3381,16 @@ func (r *Run) positionalReducerProver(fn *ssa.Function, e ast.Expr) (string, boo
 	// every successful worker return carries the worker's index in the field
 	idx := ssa.Value(mapF.Params[0])
 	nRet := 0
-	for _, ret := range returnsOf(mapF) {
-		vals := retVals(ret)
-		if len(vals) != 2 {
+	for _, wr := range r.workerReturns(mapF, idx, 0) {
+		if wr.val == nil {
 			return "", false
 		}
-		if !isNilConst(unwrap(vals[1])) {
+		if !isNilConst(unwrap(wr.err)) {
 			continue // a failed worker: AsyncMapReduce does not reduce its value
 		}
-		carried := r.carriesIndex(unwrap(vals[0]), idx, ret, carrier, 0)
-		if !carried {
+		// (a return of a function the worker forwards the result of is judged there, with the
+		// parameter the index is passed for)
+		if wr.idx == nil || !r.carriesIndex(unwrap(wr.val), wr.idx, wr.ret, carrier, 0) {
 			return "", false
 		}
 		nRet++
@@ -3465,6 +3465,12 @@ func (r *Run) carriesIndex(v, idx ssa.Value, at ssa.Instruction, carrier *types.
 	if carried {
 		return true
 	}
+	// the result of a module function — its only result, or one of several (`res, err :=
+	// de.executeGroup(index, group)`): judged at every return that hands back a value there
+	res := 0
+	if ex, ok := v.(*ssa.Extract); ok {
+		v, res = ex.Tuple, ex.Index
+	}
 	c, ok := v.(*ssa.Call)
 	if !ok {
 		return false
@@ -3485,7 +3491,14 @@ func (r *Run) carriesIndex(v, idx ssa.Value, at ssa.Instruction, carrier *types.
 		good := len(rets) > 0
 		for _, ret := range rets {
 			vals := retVals(ret)
-			if len(vals) != 1 || !r.carriesIndex(unwrap(vals[0]), h.Params[k], ret, carrier, depth+1) {
+			if res >= len(vals) {
+				good = false
+				continue
+			}
+			if len(vals) > 1 && isNilConst(unwrap(vals[res])) {
+				continue // no value on this return (the failure side of a (value, error) pair)
+			}
+			if !r.carriesIndex(unwrap(vals[res]), h.Params[k], ret, carrier, depth+1) {
 				good = false
 			}
 		}
